@@ -309,6 +309,109 @@ fn prune_non_relay_paths(paths: &mut FxHashMap<transports::Addr, PathState>) {
     paths.retain(|addr, _| !must_prune.contains(addr));
 }
 
+/// Verification wrapper for property C22 (compiled only with `--cfg iroh_verif`).
+#[cfg(iroh_verif)]
+#[allow(missing_docs, unreachable_pub, missing_debug_implementations, dead_code, clippy::unwrap_used)]
+pub(crate) mod verif_c22 {
+    use iroh_base::{EndpointId, TransportAddr};
+
+    use super::*;
+
+    /// Status of a path as seen by the harness.
+    #[derive(Debug, Clone, Copy, PartialEq, Eq, PartialOrd, Ord, Hash)]
+    pub enum Status {
+        Open,
+        Inactive,
+        Unusable,
+        Unknown,
+    }
+
+    /// Thin wrapper around the crate-private `RemotePathState`.
+    #[derive(Debug)]
+    pub struct PathStateHarness {
+        inner: RemotePathState,
+        remote: EndpointId,
+    }
+
+    impl PathStateHarness {
+        pub fn new(remote: EndpointId) -> Self {
+            Self {
+                inner: RemotePathState::new(Default::default()),
+                remote,
+            }
+        }
+
+        fn addr(&self, addr: TransportAddr) -> transports::Addr {
+            match addr {
+                TransportAddr::Relay(url) => transports::Addr::from((url, self.remote)),
+                TransportAddr::Ip(addr) => transports::Addr::from(addr),
+                TransportAddr::Custom(addr) => transports::Addr::from(addr),
+                _ => panic!("unsupported transport addr"),
+            }
+        }
+
+        pub fn resolve_remote(&mut self) -> oneshot::Receiver<Result<(), AddressLookupFailed>> {
+            let (tx, rx) = oneshot::channel();
+            self.inner.resolve_remote(tx);
+            rx
+        }
+
+        pub fn insert_multiple(&mut self, addrs: Vec<TransportAddr>, lookup_name: Option<&str>) {
+            let source = match lookup_name {
+                Some(name) => Source::AddressLookup {
+                    name: name.to_string(),
+                },
+                None => Source::App,
+            };
+            let addrs: Vec<_> = addrs.into_iter().map(|a| self.addr(a)).collect();
+            self.inner.insert_multiple(addrs.into_iter(), source);
+        }
+
+        pub fn insert_open_path(&mut self, addr: TransportAddr) {
+            let addr = self.addr(addr);
+            self.inner.insert_open_path(addr, Source::Connection);
+        }
+
+        pub fn abandoned_path(&mut self, addr: TransportAddr) {
+            let addr = self.addr(addr);
+            self.inner.abandoned_path(&addr);
+        }
+
+        pub fn address_lookup_finished(&mut self, result: Result<(), AddressLookupFailed>) {
+            self.inner.address_lookup_finished(result);
+        }
+
+        pub fn prune_paths(&mut self) {
+            self.inner.prune_paths();
+        }
+
+        pub fn is_empty(&self) -> bool {
+            self.inner.is_empty()
+        }
+
+        pub fn resolve_requests_is_empty(&self) -> bool {
+            self.inner.resolve_requests_is_empty()
+        }
+
+        /// All stored paths with their status (and abandon time for inactive ones), unordered.
+        pub fn snapshot(&self) -> Vec<(TransportAddr, Status, Option<Instant>)> {
+            self.inner
+                .paths
+                .iter()
+                .map(|(addr, state)| {
+                    let (status, t) = match state.status {
+                        PathStatus::Open => (Status::Open, None),
+                        PathStatus::Inactive(t) => (Status::Inactive, Some(t)),
+                        PathStatus::Unusable => (Status::Unusable, None),
+                        PathStatus::Unknown => (Status::Unknown, None),
+                    };
+                    (addr.clone().into(), status, t)
+                })
+                .collect()
+        }
+    }
+}
+
 #[cfg(test)]
 mod tests {
     use std::{
